@@ -76,3 +76,125 @@ theorem findIdx_some_lt (ls : List Rec) (p : Rec → Bool) (i : Nat) (h : ls.fin
   simp [List.getD_eq_getElem?_getD, hi, hp]
 
 end Gfa.G
+
+namespace Gfa.G
+
+theorem mem_namesOf_set (ls : List Rec) (i : Nat) (r : Rec) (a : String) (h : a ∈ namesOf (ls.set i r)) :
+    a ∈ namesOf ls ∨ r.name = some a := by
+  rw [mem_namesOf] at h
+  obtain ⟨q, hq, hn⟩ := h
+  rcases List.mem_or_eq_of_mem_set hq with hq | rfl
+  · left; rw [mem_namesOf]; exact ⟨q, hq, hn⟩
+  · right; exact hn
+
+/-- replacing the record at `i` keeps the identifiers distinct when the new identifier is free or is the
+    one the replaced record carried -/
+theorem nodup_set (ls : List Rec) (i : Nat) (r : Rec) (h : (namesOf ls).Nodup) (hi : i < ls.length)
+    (hr : ∀ n, r.name = some n → n ∉ namesOf ls ∨ (ls.getD i default).name = some n) :
+    (namesOf (ls.set i r)).Nodup := by
+  induction ls generalizing i with
+  | nil => simp at hi
+  | cons x xs ih =>
+    have hx : namesOf (x :: xs) = (match x.name with | some m => [m] | none => []) ++ namesOf xs := by
+      simp only [namesOf, List.filterMap_cons]; cases x.name <;> rfl
+    cases i with
+    | zero =>
+      simp only [List.set_cons_zero]
+      have hr0 : namesOf (r :: xs) = (match r.name with | some m => [m] | none => []) ++ namesOf xs := by
+        simp only [namesOf, List.filterMap_cons]; cases r.name <;> rfl
+      rw [hr0]
+      rw [hx] at h
+      have hxs : (namesOf xs).Nodup := (List.nodup_append.mp h).2.1
+      cases hn : r.name with
+      | none => simpa using hxs
+      | some n =>
+        simp only [List.singleton_append, List.nodup_cons]
+        refine ⟨?_, hxs⟩
+        rcases hr n hn with h1 | h1
+        · intro hin; apply h1; rw [hx]; exact List.mem_append_right _ hin
+        · simp only [List.getD_cons_zero] at h1
+          rw [h1] at h
+          simp only [List.singleton_append, List.nodup_cons] at h
+          exact h.1
+    | succ j =>
+      simp only [List.set_cons_succ]
+      have hs : namesOf (x :: xs.set j r) = (match x.name with | some m => [m] | none => []) ++ namesOf (xs.set j r) := by
+        simp only [namesOf, List.filterMap_cons]; cases x.name <;> rfl
+      rw [hs]
+      rw [hx] at h
+      have hxs : (namesOf xs).Nodup := (List.nodup_append.mp h).2.1
+      have hj : j < xs.length := by simpa using hi
+      have ih' := ih j hxs hj (by
+        intro n hn
+        rcases hr n hn with h1 | h1
+        · left; intro hin; apply h1; rw [hx]; exact List.mem_append_right _ hin
+        · right; simpa using h1)
+      cases hxn : x.name with
+      | none => simpa using ih'
+      | some m =>
+        simp only [List.singleton_append, List.nodup_cons]
+        refine ⟨?_, ih'⟩
+        intro hin
+        rw [hxn] at h
+        simp only [List.singleton_append, List.nodup_cons] at h
+        rcases mem_namesOf_set xs j r m hin with h2 | h2
+        · exact h.1 h2
+        · rcases hr m h2 with h3 | h3
+          · apply h3; rw [hx, hxn]; simp
+          · simp only [List.getD_cons_succ] at h3
+            -- then m is also the name of xs[j]: it occurs in namesOf xs
+            apply h.1
+            rw [mem_namesOf]
+            refine ⟨xs[j], List.getElem_mem hj, ?_⟩
+            simpa [List.getD_eq_getElem?_getD, hj] using h3
+
+end Gfa.G
+
+namespace Gfa.G
+
+theorem modAt_drop (l : List String) (i k : Nat) (g : String → String) (h : i < k) : (modAt l i g).drop k = l.drop k := by
+  induction l generalizing i k with
+  | nil => simp [modAt]
+  | cons x xs ih =>
+    cases i with
+    | zero => cases k with
+      | zero => omega
+      | succ k' => simp [modAt]
+    | succ i' => cases k with
+      | zero => omega
+      | succ k' => simp only [modAt, List.drop_succ_cons]; exact ih i' k' (by omega)
+
+theorem modAt_getD_ne (l : List String) (i j : Nat) (g : String → String) (d : String) (h : i ≠ j) :
+    (modAt l i g).getD j d = l.getD j d := by
+  induction l generalizing i j with
+  | nil => simp [modAt]
+  | cons x xs ih =>
+    cases i with
+    | zero => cases j with
+      | zero => exact absurd rfl h
+      | succ j' => simp [modAt]
+    | succ i' => cases j with
+      | zero => simp [modAt]
+      | succ j' => simp only [modAt, List.getD_cons_succ]; exact ih i' j' (by omega)
+
+theorem modAt_getD_same (l : List String) (i : Nat) (g : String → String) (d : String) (h : i < l.length) :
+    (modAt l i g).getD i d = g (l.getD i d) := by
+  induction l generalizing i with
+  | nil => simp at h
+  | cons x xs ih =>
+    cases i with
+    | zero => simp [modAt]
+    | succ i' => simp only [modAt, List.getD_cons_succ]; exact ih i' (by simpa using h)
+
+/-- substituting an identifier in the reference fields of a record leaves the record's own identifier alone -/
+theorem renameIn_name (a b : String) (r : Rec) : (renameIn a b r).name = r.name := by
+  have d05 : ∀ (l : List String) (g : String → String), (modAt l 0 g).drop 5 = l.drop 5 := fun l g => modAt_drop l 0 5 g (by decide)
+  have d25 : ∀ (l : List String) (g : String → String), (modAt l 2 g).drop 5 = l.drop 5 := fun l g => modAt_drop l 2 5 g (by decide)
+  have d06 : ∀ (l : List String) (g : String → String), (modAt l 0 g).drop 6 = l.drop 6 := fun l g => modAt_drop l 0 6 g (by decide)
+  have d26 : ∀ (l : List String) (g : String → String), (modAt l 2 g).drop 6 = l.drop 6 := fun l g => modAt_drop l 2 6 g (by decide)
+  have g10 : ∀ (l : List String) (g : String → String), (modAt l 1 g).getD 0 "" = l.getD 0 "" := fun l g => modAt_getD_ne l 1 0 g "" (by decide)
+  have g20 : ∀ (l : List String) (g : String → String), (modAt l 2 g).getD 0 "" = l.getD 0 "" := fun l g => modAt_getD_ne l 2 0 g "" (by decide)
+  unfold renameIn
+  cases hrt : r.rt <;> simp only [hrt, Rec.name, fld, d05, d25, d06, d26, g10, g20] <;> (try rfl) <;> simp [hrt]
+
+end Gfa.G
